@@ -13,7 +13,8 @@ import sys
 import threading
 import warnings
 
-sys.path.insert(0, "/repo")
+import paths  # noqa: E402
+sys.path.insert(0, paths.REPO)
 
 from statemachine import State, StateMachine  # noqa: E402
 from statemachine.exceptions import (  # noqa: E402
